@@ -97,6 +97,16 @@ CHECKS = {
     text="150/2500 analysed traces: one breakdown row per critical edge with the edge's weight and type, durations adding up to the path weight, every span edge attributed to an existing event of the same thread (or the same device activity) whose span covers the edge's time range, kernel-kernel delays to the preceding kernel, the bound-by class of every row, and summary shares = class sums / total adding up to 100.",
     note="Communication kernels are recognised through the vocabulary table CommNames. " + TB,
     ref="DESIGN.md section 5 (C10)"),
+ "C19": dict(
+    technique="TLA+ persistence state machine (Persist / MC_Persist: save, restore, recompute, save-restored, reweight over two slots) checked by TLC; its enumerated histories are executed on real CPGraph objects and every observed projection is validated step by step by TLC (Trace_Persist)",
+    text="TLC explores every history of 5 operations over two save slots (RestoredIsSaved, DiskNeverAhead) and prints them; 60/600 real graphs each execute one enumerated history through CPGraph.save / restore_cpgraph / critical_path() / what-if re-weighting; after every operation digests of (nodes, edges, weights, types, attributions), of (path, event set, edge set), of the breakdown table and the path weight are recorded and TLC advances the abstract state: a restored object must equal what the slot held, saving must not change the object, recomputation must keep graph and path weight.",
+    note="Digests computed by the harness from the projected objects; analysis failures are C08's business and redrawn. " + TB,
+    ref="DESIGN.md section 5 (C19)"),
+ "C20": dict(
+    technique="TLA+ model of the file writers (TraceFiles / MC_TraceFiles: WithCounters, Overlay, RoundTrip, UpdateRank) checked by TLC + TLC trace validation of the files the real tool wrote (Trace_Files)",
+    text="TLC checks on every source of <=2 entries, every critical set and every set of drawn edges that the writers satisfy OnlyAppended / MarkedExactly / Filter / FlowPairs / FlowPlacement; 120/1500 cases: generated traces through generate_trace_with_counters and overlay_critical_path_analysis with all four option combinations (entries canonicalised and interned: source entries unchanged and in order, only counters / flow arrows appended, critical marker exactly on the path's events, one s/f pair per drawn edge on the pid/tid of the joined events), and write_trace/read_trace round trips, update_trace_rank with ranks 0..1000 and create_rank_to_trace_dict on 1-4 files in both formats.",
+    note="Files are opened by magic bytes (gzip data under a .json name, observation O1). " + TB,
+    ref="DESIGN.md section 5 (C20)"),
 }
 
 NOT_YET = {}
